@@ -130,6 +130,8 @@ func (r *raffle) returnTicket(ticket *ticket) {
 }
 
 func (r *raffle) runningJob(jobid string) *runState {
+	r.runningMu.Lock()
+	defer r.runningMu.Unlock()
 	state, ok := r.runningJobs[jobid]
 	if ok {
 		return state
@@ -138,5 +140,12 @@ func (r *raffle) runningJob(jobid string) *runState {
 }
 
 func (r *raffle) getRunningJobs() map[string]*runState {
-	return r.runningJobs
+	// hand out a copy: callers iterate the result while jobs start and finish
+	r.runningMu.Lock()
+	defer r.runningMu.Unlock()
+	result := make(map[string]*runState, len(r.runningJobs))
+	for k, v := range r.runningJobs {
+		result[k] = v
+	}
+	return result
 }
